@@ -51,6 +51,7 @@ class Engine(ExprMixin, CallMixin, StmtMixin):
         self.bound_ranges = []
         self._class_const_cache = {}
         self._resolve_cache = {}
+        self.implicit_inlined = set()
         self.contract_stack = []
         self.callees = set()
         self.used_lemmas = set()
@@ -371,8 +372,7 @@ def solve(ob, timeout_ms):
     g = z3.simplify(ob.goal)
     if z3.is_true(g):
         return "unsat", 0.0, None, "trivial"
-    from .calls import SPEC_AXIOMS, OPAQUE_AXIOMS
-    axioms = list(SPEC_AXIOMS.values()) + [OPAQUE_AXIOMS[n] for n in getattr(ob, "reveal", ()) if n in OPAQUE_AXIOMS]
+    axioms = relevant_axioms(ob)
 
     def attempt(ematch_only, tmo):
         s = z3.Solver()
@@ -408,11 +408,58 @@ def solve(ob, timeout_ms):
     return "unknown", dt, (s, ), "z3"
 
 
-def smt2_of(ob):
+_SPEC_REFS = {}
+
+
+def _spec_names(exprs):
+    """names of the spec functions (spec_<name>) applied anywhere in the given z3 terms"""
+    seen, out, stack = set(), set(), list(exprs)
+    while stack:
+        e = stack.pop()
+        if e.get_id() in seen:
+            continue
+        seen.add(e.get_id())
+        if z3.is_quantifier(e):
+            stack.append(e.body())
+            for k in range(e.num_patterns()):
+                stack.append(e.pattern(k))
+            continue
+        if z3.is_app(e):
+            nm = e.decl().name()
+            if nm.startswith("spec_"):
+                out.add(nm[5:])
+            stack.extend(e.children())
+    return out
+
+
+def relevant_axioms(ob):
+    """definitional axioms of exactly the spec functions the obligation mentions, closed under the functions their definitions use; the
+    set no longer depends on which other contracts the same worker process happened to verify before (verdict stability)"""
     from .calls import SPEC_AXIOMS, OPAQUE_AXIOMS
+    reveal = set(getattr(ob, "reveal", ()))
+    todo = _spec_names(list(ob.assumptions) + [ob.goal])
+    done = set()
+    out = []
+    while todo:
+        n = todo.pop()
+        if n in done:
+            continue
+        done.add(n)
+        ax = SPEC_AXIOMS.get(n)
+        if ax is None and n in reveal:
+            ax = OPAQUE_AXIOMS.get(n)
+        if ax is None:
+            continue
+        out.append((n, ax))
+        if n not in _SPEC_REFS:
+            _SPEC_REFS[n] = _spec_names([ax])
+        todo |= _SPEC_REFS[n] - done
+    return [ax for _, ax in sorted(out, key=lambda x: x[0])]
+
+
+def smt2_of(ob):
     s = z3.Solver()
-    s.add(*SPEC_AXIOMS.values())
-    s.add(*[OPAQUE_AXIOMS[n] for n in getattr(ob, "reveal", ()) if n in OPAQUE_AXIOMS])
+    s.add(*relevant_axioms(ob))
     s.add(*ob.assumptions)
     s.add(z3.Not(ob.goal))
     return s.to_smt2()
